@@ -324,6 +324,12 @@ func vC16Hop(r *vRand, s string) string {
 		return s + " :80"
 	case 7:
 		return s + ":"
+	case 8:
+		// everything unicode.IsSpace accepts is trimmed from a hop
+		return r.pick([]string{"\u00a0", "\u2003", "\u0085", "\v", "\f", "\r\n", "\u3000"}) + s + r.pick([]string{"", "\u00a0", "\u2028", " \t"})
+	case 9:
+		// … but not what merely looks like space
+		return r.pick([]string{"\u200b", "\ufeff", "\x00"}) + s
 	}
 	return s
 }
@@ -447,6 +453,9 @@ func vC16GenReq(r *vRand, w *vC16World) vC16Req {
 		switch r.intn(8) {
 		case 0:
 			v = r.pick(vC16Garbage)
+			if i == 0 && nx > 1 && r.chance(1, 2) {
+				v = "" // Header.Get yields the first line only, also when it is empty
+			}
 		case 1:
 			v = vC16Hop(r, vC16Spell(r, w.pick(r, w.all)))
 		default:
@@ -504,7 +513,15 @@ var vC16Configs = [][2]string{
 // vC16GenCases: `routes` lists the routes of this server (gated and open); `modes` the
 // variants of the direct call.
 func vC16GenCases(e *vEnv, r *vRand, server string, routes []string) []vCase {
-	var cases []vCase
+	seen := map[string]bool{}
+	var distinct []string
+	for _, rt := range routes {
+		if !seen[rt] {
+			seen[rt] = true
+			distinct = append(distinct, rt)
+		}
+	}
+	cases := vC16Fixed(server, distinct)
 	n := e.scale(160, 2500)
 	perCase := e.scale(18, 40)
 	for i := 0; i < n; i++ {
@@ -545,6 +562,60 @@ func vC16GenCases(e *vEnv, r *vRand, server string, routes []string) []vCase {
 			}
 		}
 		cases = append(cases, vCase{Ops: ops})
+	}
+	return cases
+}
+
+// vC16Fixed: the textbook shapes, on every gated route.
+func vC16Fixed(server string, routes []string) []vCase {
+	type rq struct {
+		remote string
+		hdrs   []vC16Hdr
+	}
+	x := func(v string) vC16Hdr { return vC16Hdr{vC16RealIP, v} }
+	f := func(v string) vC16Hdr { return vC16Hdr{vC16Forwarded, v} }
+	reqs := []rq{
+		{"10.11.12.13:234", nil},
+		{"10.11.12.13:234", []vC16Hdr{x("127.0.0.1")}},
+		{"10.11.12.13:234", []vC16Hdr{f("127.0.0.1")}},
+		{"10.11.12.13:234", []vC16Hdr{f("127.0.0.1, 192.168.0.1"), x("192.168.0.1")}},
+		{"192.168.1.2:23456", nil},
+		{"192.168.1.2:23456", []vC16Hdr{x("10.11.12.13")}},
+		{"192.168.1.2:23456", []vC16Hdr{x("127.0.0.1")}},
+		{"192.168.1.2:23456", []vC16Hdr{x("2002:db8::1")}},
+		{"192.168.1.2:23456", []vC16Hdr{x(" 127.0.0.1")}},
+		{"192.168.1.2:23456", []vC16Hdr{x(""), x("127.0.0.1")}},
+		{"192.168.1.2:23456", []vC16Hdr{x("127.0.0.1:80"), f("192.168.0.1")}},
+		{"192.168.1.2:23456", []vC16Hdr{f("11.12.13.14, 192.168.30.32")}},
+		{"192.168.1.2:23456", []vC16Hdr{f("127.0.0.1, 11.12.13.14, 192.168.30.32")}},
+		{"192.168.1.2:23456", []vC16Hdr{f("127.0.0.1"), f("11.12.13.14"), f("192.168.30.32")}},
+		{"192.168.1.2:23456", []vC16Hdr{f("192.168.0.1, 192.168.30.32")}},
+		{"192.168.1.2:23456", []vC16Hdr{f("192.168.1.100,192.168.30.32, 192.168.1.77")}},
+		{"192.168.1.2:23456", []vC16Hdr{f("[2001:db8::1]:1234, 192.168.30.32:80")}},
+		{"192.168.1.2:23456", []vC16Hdr{f("127.0.0.1:99, unknown, 192.168.30.32")}},
+		{"192.168.1.2:23456", []vC16Hdr{f("unknown, , _hidden")}},
+		{"192.168.1.2:23456", []vC16Hdr{f("127.0.0.1, [::1]")}},
+		{"192.168.1.2:23456", []vC16Hdr{x("garbage"), f("127.0.0.1")}},
+		{"[::ffff:192.168.1.2]:23456", []vC16Hdr{x("127.0.0.1")}},
+		{"192.168.1.2", []vC16Hdr{x("127.0.0.1")}},
+		{"[fe80::1%eth0]:1234", []vC16Hdr{x("127.0.0.1")}},
+		{"@", []vC16Hdr{x("127.0.0.1"), f("127.0.0.1")}},
+		{"", []vC16Hdr{x("127.0.0.1")}},
+		{"127.0.0.1:4711", nil},
+		{"127.0.0.1:4711", []vC16Hdr{x("8.8.8.8")}},
+		{"[::1]:4711", nil},
+	}
+	var cases []vCase
+	for _, cfg := range [][2]string{{"", ""}, {"192.168.0.0/16", "127.0.0.1, 192.168.0.1, 192.168.1.1/24"}, {"192.168.1.2", "::1, 2002:db8::/32"}} {
+		ops := []string{vC16CfgOp("new", server, cfg[0], cfg[1])}
+		for _, q := range reqs {
+			req := vC16Req{Remote: q.remote, Hdrs: q.hdrs}
+			ops = append(ops, vC16IpOp("srv", req), vC16IpOp("nil", req))
+			for _, rt := range routes {
+				ops = append(ops, vC16GetOp(server, rt, req))
+			}
+		}
+		cases = append(cases, vCase{Ops: ops, Tags: []string{"fixed"}})
 	}
 	return cases
 }
